@@ -7,7 +7,10 @@ use crate::{
         },
         format::format_time_part,
         offset::{add_offset_to_nanos, remove_offset_from_nanos},
-        parse::{parse_format_string, parse_time_part, ParseUnit, ParsedTime, Period},
+        parse::{
+            parse_format_string, parse_time_part, remove_escaped_part, remove_part, unescape_part,
+            ParseUnit, ParsedTime, Period,
+        },
         time::{
             convert::{
                 days_nanos_to_hours, days_nanos_to_micros, days_nanos_to_millis,
@@ -204,13 +207,13 @@ impl Time {
         for part in parts {
             // Escaped apostrophes
             if part.starts_with('\u{0000}') {
-                string.replace_range(0..part.len(), "");
+                remove_part(part.chars().count(), &mut string)?;
                 continue;
             }
 
             // Escaped parts
             if part.starts_with('\'') {
-                string.replace_range(0..part.len() - if part.ends_with('\'') { 2 } else { 1 }, "");
+                remove_escaped_part(&part, &mut string)?;
                 continue;
             }
 
@@ -339,9 +342,7 @@ impl Time {
                 // Escape parts starting with apostrophe
                 if part.starts_with('\'') {
                     let part = part.replace('\u{0000}', "'");
-                    return part[1..part.len() - usize::from(part.ends_with('\''))]
-                        .chars()
-                        .collect::<Vec<char>>();
+                    return unescape_part(&part).chars().collect::<Vec<char>>();
                 }
 
                 format_time_part(
